@@ -1,22 +1,108 @@
+"""C13 — point-to-point channels deliver intact, in order, exactly once (harness/w_c13.cc)."""
 from . import stage
 from .. import runner
+
+import c13_trace   # ref/c13_trace.py: offline trace checker, independent of the C++ oracle
 
 FLAVOURS = ["san"]
 
 # every sub-case builds a fresh receiver (4 KiB buffers, MAC and cipher contexts); with ASan's default
 # 256 MiB quarantine the allocator thrashes the caches (4-8x slower), so the quarantine is reduced
+# (heap-overflow detection is unaffected; a use-after-free is still caught within the 8 MiB window)
 ENV = {"ASAN_OPTIONS": runner.SAN_ENV["ASAN_OPTIONS"] + ":quarantine_size_mb=8"}
+
+CLASSES = ["select", "nonblock"]
+MODES = ["a%de%dc%d" % (a, e, c) for a in (0, 1) for e in (0, 1) for c in (0, 1)]
+BYTE_FAULTS = ["flip", "overwrite", "insert", "duplicate-byte", "delete", "delete-run", "truncate"]
+RECORD_FAULTS = ["remove-record", "replay-record", "swap-records", "insert-foreign-record", "insert-forged-record"]
 
 
 def prebuild(repo):
     stage("w_c13", repo)
 
 
+def post(recs, merged):
+    counts = merged["counts"]
+    if counts.get("send_refused_ordinary", 0):
+        raise runner.Harness("Send refused %d ordinary workload values: the reference sequences are not what the "
+                             "workload intended" % counts["send_refused_ordinary"])
+    if counts.get("record_fault_setup_failed", 0):
+        raise runner.Harness("record-level fault cases could not locate the records on the wire")
+    res = c13_trace.check_records(recs)
+    if res["malformed"]:
+        raise runner.Harness("malformed trace: " + res["malformed"][0])
+    if res["disagreements"]:
+        raise runner.Harness("C++ oracle and offline trace checker disagree: " + res["disagreements"][0])
+    merged["obs"]["traces_checked_offline"] = res["checked"]
+    merged["obs"]["traces_by_clause"] = res["by_judge"]
+    # size limit of Send as observed: per class.mode the longest accepted and the shortest refused value (base-62 digits on the wire)
+    lim = {}
+    for r in recs:
+        if r.get("k") != "maxsize":
+            continue
+        d = lim.setdefault("%s.%s" % (r["cls"], r["mode"]), dict(max_accepted_digits=0, min_refused_digits=None))
+        if r["accepted"]:
+            d["max_accepted_digits"] = max(d["max_accepted_digits"], r["digits"])
+        elif d["min_refused_digits"] is None or r["digits"] < d["min_refused_digits"]:
+            d["min_refused_digits"] = r["digits"]
+    merged["obs"]["send_size_limit"] = lim
+    for k, d in lim.items():
+        if d["min_refused_digits"] is None or d["max_accepted_digits"] == 0:
+            raise runner.Harness("size-limit probes of %s saw only one outcome: %r" % (k, d))
+    return res["violations"]
+
+
 def spec(tier, seed, repo):
+    q = tier == "quick"
+    floors = {
+        "split_points": 18000, "split_pairs": 200000 if q else 1000000, "split_pairs_exhaustive_wires": 16,
+        "split_in_iv": 400, "split_in_line": 12000, "split_in_delim": 200, "split_in_tag": 3000, "split_points_rto1": 1200,
+        "const_chunk_runs": 2000, "random_chunk_runs": 1500,
+        "long_runs_direct": 48, "long_runs_roundrobin": 48, "long_runs_random": 48, "long_messages": 25000 if q else 500000,
+        "arrays_sent": 8000, "scalars_sent": 12000, "messages_received": 1000000,
+        "maxsize_accepted": 100, "maxsize_refused": 300,
+        "faults_judged_subsequence": 40000, "faults_judged_prefix": 600, "faults_not_judged": 20000,
+        "fault_at_iv": 800, "fault_at_line": 40000, "fault_at_delim": 800, "fault_at_tag": 12000, "fault_at_record": 2000,
+        "fault_loss_in_the_middle": 100,      # e.g. IV bit flipped: first message lost, the rest delivered (DESIGN note)
+        "conf_equal_pairs": 2000, "conf_digit_checks": 400,
+        "plain_digits_seen": 200, "plain_equal_lines_seen": 1000,   # the two confidentiality probes do fire on unencrypted links
+        "traces_emitted": 400, "negative_accepted": 100,
+    }
+    for k in BYTE_FAULTS:
+        for c in CLASSES:
+            for m in MODES:
+                floors["fault.%s.%s.%s" % (k, c, m)] = 60
+    for k in RECORD_FAULTS:
+        for c in CLASSES:
+            for m in MODES:
+                floors["fault.%s.%s.%s" % (k, c, m)] = 10
     return dict(
-        stages=[stage("w_c13", repo, nshards=16, case_timeout=600 if tier == "quick" else 3000, env=ENV)],
+        stages=[stage("w_c13", repo, nshards=16, case_timeout=600 if q else 3000, env=ENV)],
         level="fault_enumeration",
-        rule="tbd",
-        assumptions=[],
-        floors={},
+        rule="sender object A and receiver object B of one channel class (select|nonblock) and one of the 8 flag "
+             "combinations {authenticated, encrypted, chunked}; the harness moves the bytes between A's output and B's "
+             "input descriptors itself.  One sub-case = (wire bytes of an exchange, fragmentation = list of cut offsets, "
+             "Receive time-out, fault or none) run against a fresh receiver.  Families: split (every single split point, "
+             "all pairs of split points for wires up to ~115 bytes and adjacent + sampled pairs otherwise, constant and "
+             "random fragment sizes; exchanges of 1-4 items mixing scalars and arrays, values 0, 1, 2^256-1, 2^256, 2^256+1, "
+             "the array delimiter, random up to 2048 bits), long (3 links, 200/2000 items per run, random interleaving of "
+             "Send, feed 1..300 bytes, Receive; schedulers direct, roundrobin, random), maxsize (values of 43..8200 base-62 "
+             "digits around the limit of Send: accepted => delivered, refused => link undisturbed), negative, fault-byte "
+             "(flip, overwrite, insert, duplicate, delete, delete-run, truncate+EOF at every offset), fault-record (remove, "
+             "replay, swap, foreign record with valid tag from a second session, forged record), conf (equal integers => "
+             "different ciphertext lines; base-62/decimal text not on the wire).  evaluations = oracle comparisons; distinct = "
+             "distinct (wire, fragmentation/fault) tuples per case (hash set).  A sample of sub-cases per family and every "
+             "violating one is written as a full SEND/WIRE/FEED/FAULT/RECV trace and re-judged by ref/c13_trace.py.",
+        assumptions=[
+            "reference model: per link the items for which Send returned true, in call order",
+            "the receiver follows the protocol: with the direct scheduler it asks for an array of k elements exactly where "
+            "the sender sent one; with roundrobin/random a phase uses one call type on all links (the API cannot do otherwise)",
+            "byte-level faults are judged in authenticated modes only (subsequence), record-level faults in the default mode "
+            "(authenticated, encrypted, not chunked) only (prefix); all other fault runs are executed and counted, not judged",
+            "time(), select(), sleep() are interposed: Receive is called with time-out 0 (and 1 virtual second for the select class)",
+            "sender-side partial writes (full pipe) are not produced; confidentiality is a smoke test only",
+            "a garbled first cipher block after an IV fault parses as a valid >= 2^256 number with probability < 2^-30 per case (ignored)",
+        ],
+        floors=floors,
+        post=post,
     )
